@@ -118,9 +118,13 @@ CHECKS += [
          "followed by pv2puml on the saved files, with the default and with a fully renamed field mapping, sync and async: the saved PV files hold exactly "
          "the events, links and field values of the in-memory stream (under the renamed keys), loading inverts saving, and the models learned on the two "
          "routes are equal per workflow.",
-         "Bounded exploration on seeded trace sets; diagram text is not compared (C03). Additionally PROVED (contracts/c14.py, 5 clauses): "
-         "transform_dict_into_pv_event reads every PV field under the key the mapping gives it, normalises previousEventIds, and raises ValueError exactly "
-         "when a mandatory renamed key is missing (pydantic validation trusted). The save comprehension inside `with open`/json.dump is not under contract.",
+         "Bounded exploration on seeded trace sets; diagram text is not compared (C03). Additionally PROVED for all inputs (contracts/c14.py, 45 clauses, "
+         "the file boundary of the second sentence of the property): handle_save_events writes the n-th trace of a workflow, whole, as file n of the "
+         "workflow's folder and touches no other file; save_pv_event_stream_to_file stores one dict per event, every field value under the field's "
+         "(re)name and no other key; transform_dict_into_pv_event reads every field under the key the mapping gives it, normalises previousEventIds and "
+         "raises ValueError exactly when a mandatory renamed key is missing; pv_job_file_to_event_sequence loads every entry of the file in order; lemmas "
+         "load_inverts_save_event / load_inverts_save_file: loading what was saved under the same mapping (pairwise distinct names; default names when no "
+         "mapping was used) gives the events back. Files are a ghost map (json.dump / json.load trusted to be inverse; pydantic validation trusted).",
          "DESIGN.md 4/C14"),
     bchk("C15", "BOUNDED (never counted as proved). Every history of <= 3 runs (ingest / no ingest x unique graphs on / off) of the real entry point "
          "otel_to_pv over a file-backed store, with time_buffer 0 and 1: each run terminates, keeps the store well-formed (association rows match stored "
